@@ -26,7 +26,8 @@ RULE = ("case kinds: dataflow (generated design x scheduler x inputs: exact-once
         "independently computed order graph holds), novar (signal-free constraint cycles must raise in all "
         "schedulers), methods (CL component with non-blocking methods and direct M(a)<M(b), U(x)<M(a), M(a)<U(x) "
         "constraints: every caller block of a before every caller block of b), greenlet (wrapped blocks keep their "
-        "constraints), valcons (RD/WR value constraints on one signal declared by the owning child AND its parent); non-trivial = >=1 ordered pair actually checked (or an error expected and seen); "
+        "constraints), valcons (RD/WR value constraints on one signal declared by the owning child AND its parent), "
+        "deep (a nested-struct wire handed whole to a child while driven only through pieces two levels down); non-trivial = >=1 ordered pair actually checked (or an error expected and seen); "
         "distinct = case digest")
 TIERS = {"quick": {"runs": 1600, "budget_s": 100, "chunk": 4},
          "thorough": {"runs": 300000, "budget_s": 1800, "chunk": 8}}
@@ -410,6 +411,83 @@ def run_valcons(case, stats):
   return []
 
 
+def gen_deep(c):
+  """a struct wire handed WHOLE to a child (a net of whole top-level signals) while it is driven only through
+  pieces two levels down (leaves of a nested struct, slices of a field), by blocks and / or connections"""
+  return {"how": [c.choice(["blk", "blk", "conn"]) for _ in range(4)], "one_block": c.random() < 0.5,
+          "order": c.sample(range(3), 3), "inputs": [c.getrandbits(16) for _ in range(c.randint(2, 5))],
+          "extra_child_level": c.random() < 0.3}
+
+
+def deep_source(t, uid):
+  L = ["from pymtl3 import *", "", "TRACE_%s = []" % uid,
+       "Hdr_%s = mk_bitstruct('Hdr_%s', {'src': Bits4, 'dst': Bits4})" % (uid, uid),
+       "Pkt_%s = mk_bitstruct('Pkt_%s', {'hdr': Hdr_%s, 'pay': Bits8})" % (uid, uid, uid), "",
+       "class Child_%s(Component):" % uid, "  def construct(s):", "    s.in_ = InPort(Pkt_%s)" % uid, "    s.out = OutPort(Bits16)",
+       "    @update", "    def c_rd():", "      TRACE_%s.append('c_rd')" % uid,
+       "      s.out @= concat(s.in_.hdr.src, s.in_.hdr.dst, s.in_.pay)", ""]
+  if t["extra_child_level"]:
+    L += ["class Mid_%s(Component):" % uid, "  def construct(s):", "    s.in_ = InPort(Pkt_%s)" % uid, "    s.out = OutPort(Bits16)",
+          "    s.c = Child_%s()" % uid, "    s.c.in_ //= s.in_", "    s.out //= s.c.out", ""]
+  pieces = [("s.pkt.hdr.src", "s.x[12:16]"), ("s.pkt.hdr.dst", "s.x[8:12]"), ("s.pkt.pay[4:8]", "s.x[4:8]"), ("s.pkt.pay[0:4]", "s.x[0:4]")]
+  # connect(), not //=: `s.pkt.hdr.dst //= ...` on a field of a field is known finding F10
+  conns = ["connect(%s, %s)" % p for p, h in zip(pieces, t["how"]) if h == "conn"]
+  blks = [p for p, h in zip(pieces, t["how"]) if h == "blk"]
+  parts = [conns, [], ["s.child.in_ //= s.pkt", "s.out //= s.child.out"]]
+  if blks:
+    if t["one_block"]:
+      parts[1] = ["@update", "def p_wr0():", "  TRACE_%s.append('p_wr0')" % uid] + ["  %s @= %s" % p for p in blks]
+    else:
+      for i, p in enumerate(blks):
+        parts[1] += ["@update", "def p_wr%d():" % i, "  TRACE_%s.append('p_wr%d')" % (uid, i), "  %s @= %s" % p]
+  L += ["class Top_%s(Component):" % uid, "  def construct(s):", "    s.x = InPort(Bits16)", "    s.out = OutPort(Bits16)",
+        "    s.pkt = Wire(Pkt_%s)" % uid, "    s.child = %s_%s()" % ("Mid" if t["extra_child_level"] else "Child", uid)]
+  for i in t["order"]:
+    L += ["    " + x for x in parts[i]]
+  return "\n".join(L) + "\n"
+
+
+def run_deep(case, stats):
+  from ..sched import harness
+  from pymtl3 import Bits16
+  t = case["tmpl"]
+  for sched, sseed in case["scheds"]:
+    seams.set_hash_stream(case["hash_seed"] ^ sseed)
+    try:
+      ns, cls, _ = emit.build({"uid": case["uid"], "top": "Top"}, src=deep_source(t, case["uid"]))
+      top = cls()
+      top.elaborate()
+      harness.prepare(top, sched, sseed)
+      top.sim_reset()
+    except Exception as e:
+      return [C.exc_violation(e, "build/%s" % sched)]
+    stats["fault_counts"]["sched." + sched] = stats["fault_counts"].get("sched." + sched, 0) + 1
+    trace = ns["TRACE_" + case["uid"]]
+    for cyc, x in enumerate(t["inputs"]):
+      del trace[:]
+      top.x @= Bits16(x)
+      try:
+        top.sim_eval_combinational()
+      except Exception as e:
+        return [C.exc_violation(e, "sim/%s" % sched)]
+      tr = list(trace)
+      stats["schedules"].append(_rng.digest(tr))
+      if tr.count("c_rd") != 1:
+        return [C.viol("exactly_once", {"sched": sched, "block": "c_rd", "count": tr.count("c_rd"), "kind": "deep", "trace": tr})]
+      for b in tr:
+        if b != "c_rd":
+          stats["pairs_checked"] += 1
+          if tr.index(b) > tr.index("c_rd"):
+            return [C.viol("writer_before_reader", {"sched": sched, "sched_seed": sseed, "writer": b, "reader": "c_rd",
+                                                    "kind": "deep", "trace": tr})]
+      stats["pairs_checked"] += 1
+      if int(top.out) != x:
+        # pieces driven through connections have no traced block: the value at the end of ONE pass decides
+        return [C.viol("value_at_end", {"sched": sched, "sched_seed": sseed, "cycle": cyc, "got": int(top.out), "want": x,
+                                        "kind": "deep", "trace": tr})]
+  return []
+
+
 def run_methods(case, stats):
   from ..sched import harness
   t = case["tmpl"]
@@ -460,6 +538,12 @@ def gen_case(R, tier):
   s = R("sched")
   r = c.random()
   base = {"hash_seed": R.sub_seed("hash")}
+  if R("fam").random() < 0.04:
+    d = R("deep")
+    base.update(kind="deep", tmpl=gen_deep(d), uid="w%x" % (R.seed & 0xffffff),
+                scheds=[[x, d.getrandbits(32)] for x in d.sample(
+                  ("default", "default_s2", "mamba", "mamba_s2", "simple", "simple_s2", "unroll", "heutopo", "forced"), 3)])
+    return base
   if r < 0.03:
     base.update(kind="valcons", tmpl=gen_valcons(c), uid="v%x" % (R.seed & 0xffffff),
                 scheds=[[x, s.getrandbits(32)] for x in s.sample(
@@ -749,6 +833,8 @@ def run_case(case):
     v = run_greenlet(case, stats)
   elif kind == "valcons":
     v = run_valcons(case, stats)
+  elif kind == "deep":
+    v = run_deep(case, stats)
   else:
     v = run_novar(case, stats)
   stats["fault_counts"]["kind." + kind] = 1
@@ -765,6 +851,8 @@ def sample(case):
     return {"kind": "dataflow", "scheds": case["scheds"], "source_head": emit.source(case["spec"])[:1200]}
   if case["kind"] == "methods":
     return {"kind": "methods", "scheds": case["scheds"], "source": methods_source(case["tmpl"], case["uid"])}
+  if case["kind"] == "deep":
+    return {"kind": "deep", "scheds": case["scheds"], "source": deep_source(case["tmpl"], case["uid"])}
   if case["kind"] == "valcons":
     return {"kind": "valcons", "scheds": case["scheds"], "source": valcons_source(case["tmpl"], case["uid"])}
   if case["kind"] == "greenlet":
@@ -781,6 +869,14 @@ def shrink(case):
       for s in case["scheds"]:
         yield dict(case, scheds=[s])
     t = case["tmpl"]
+    if case["kind"] == "deep":
+      if len(t["inputs"]) > 1:
+        yield dict(case, tmpl=dict(t, inputs=t["inputs"][:1]))
+        yield dict(case, tmpl=dict(t, inputs=t["inputs"][1:]))
+      if len(case["scheds"]) > 1:
+        for s_ in case["scheds"]:
+          yield dict(case, scheds=[s_])
+      return
     if case["kind"] == "valcons":
       for key in ("child_early", "parent_early", "child_late", "parent_late"):
         if t[key] > (1 if key == "parent_early" else 0):
